@@ -128,6 +128,14 @@ theorem symmetric_norm_one (S : Scalars ℂ) (isReal isTrace0 : Bool) (θ : Nat 
     (hne : frobSq dim dim (symmetricRaw S dim isReal isTrace0 θ) ≠ 0) :
     frobSq dim dim (symmetricMatrix S dim isReal isTrace0 true θ) = 1 := symmetricMatrix_norm1' S isReal isTrace0 θ hne
 
+/-- the final output (with or without `is_norm1`) is Hermitian … -/
+theorem symmetricMatrix_hermitian (S : Scalars ℂ) (hS : S.Valid dim) (hd : 1 ≤ dim) (isReal isTrace0 isNorm1 : Bool) (θ : Nat → ℝ) :
+    (toM dim dim (symmetricMatrix S dim isReal isTrace0 isNorm1 θ))ᴴ = toM dim dim (symmetricMatrix S dim isReal isTrace0 isNorm1 θ) :=
+  symmetricMatrix_hermitian' S hS hd isReal isTrace0 isNorm1 θ
+/-- … and traceless when requested -/
+theorem symmetricMatrix_trace_zero (S : Scalars ℂ) (hd : 1 ≤ dim) (isReal isNorm1 : Bool) (θ : Nat → ℝ) :
+    trace (toM dim dim (symmetricMatrix S dim isReal true isNorm1 θ)) = 0 := symmetricMatrix_trace' S hd isReal isNorm1 θ
+
 /-! ### special orthogonal / unitary -/
 
 /-- the generator (θ placed in the antisymmetric block / `i`·Hermitian traceless block) is skew-Hermitian -/
@@ -205,6 +213,10 @@ theorem stiefelQR_orthonormal (qrQ : NMat ℂ → NMat ℂ)
     (hfull : Function.Injective (toM dim rank (stiefelMat (K := ℂ) dim rank isReal θ)).mulVec) :
     (toM dim rank (stiefelQR qrQ dim rank isReal θ))ᴴ * toM dim rank (stiefelQR qrQ dim rank isReal θ) = 1 :=
   stiefelQR_orthonormal' qrQ hqr isReal θ hfull
+
+/-- `Stiefel(method='so-exp' | 'so-cayley')`: the first `rank` columns of the (unitary) SO/SU chart are orthonormal -/
+theorem stiefelSO_orthonormal (rank : Nat) (h : rank ≤ dim) (U : NMat ℂ) (hU : (toM dim dim U)ᴴ * toM dim dim U = 1) :
+    (toM dim rank (soColumns dim rank U))ᴴ * toM dim rank (soColumns dim rank U) = 1 := soColumns_orthonormal rank h U hU
 
 /-! ### compositions -/
 
